@@ -364,6 +364,8 @@ func (cs *State) OnStart() error {
 				return err
 			}
 		}
+	} else if err := cs.markSyncedHeight(cs.state.LastBlockHeight); err != nil {
+		return err
 	}
 
 	if err := cs.evsw.Start(); err != nil {
@@ -395,6 +397,33 @@ func (cs *State) startRoutines(maxSteps int) {
 	}
 
 	go cs.receiveRoutine(maxSteps)
+}
+
+// markSyncedHeight is called when consensus starts without WAL catchup, i.e. on
+// a state whose last blocks were obtained by block sync or state sync rather
+// than committed by this state machine. Only finalizeCommit writes #ENDHEIGHT,
+// so the WAL has no marker for the synced height. Without one, a crash inside
+// the next height leaves catchupReplay unable to find where that height begins
+// ("WAL does not contain #ENDHEIGHT"), and the proposal, votes and lock of the
+// unfinished height are not replayed although they were written to the WAL.
+// Write the marker before the first message of the new height.
+func (cs *State) markSyncedHeight(height int64) error {
+	if height <= 0 {
+		return nil
+	}
+	gr, found, err := cs.wal.SearchForEndHeight(height, &WALSearchOptions{IgnoreDataCorruptionErrors: true})
+	if err != nil {
+		return err
+	}
+	if gr != nil {
+		if err := gr.Close(); err != nil {
+			return err
+		}
+	}
+	if found {
+		return nil
+	}
+	return cs.wal.WriteSync(EndHeightMessage{height})
 }
 
 // loadWalFile loads WAL data from file. It overwrites cs.wal.
